@@ -79,6 +79,20 @@ theorem guid_layout :
     GUID = [("data1", 4), ("data2", 2), ("data3", 2), ("data4[0]", 1), ("data4[1]", 1), ("data4[2]", 1), ("data4[3]", 1),
       ("data4[4]", 1), ("data4[5]", 1), ("data4[6]", 1), ("data4[7]", 1)] := by decide
 
+theorem crashpad_layouts_used :
+    fieldAt MINIDUMP_CRASHPAD_INFO 0 = some ("version", 4) ∧
+    fieldAt MINIDUMP_CRASHPAD_INFO 23 = some ("simple_annotations.data_size", 4) ∧
+    fieldAt MINIDUMP_CRASHPAD_INFO 24 = some ("simple_annotations.rva", 4) ∧
+    fieldAt MINIDUMP_CRASHPAD_INFO 25 = some ("module_list.data_size", 4) ∧
+    fieldAt MINIDUMP_CRASHPAD_INFO 26 = some ("module_list.rva", 4) ∧
+    MINIDUMP_MODULE_CRASHPAD_INFO_LINK = [("minidump_module_list_index", 4), ("location.data_size", 4), ("location.rva", 4)] ∧
+    MINIDUMP_MODULE_CRASHPAD_INFO = [("version", 4), ("list_annotations.data_size", 4), ("list_annotations.rva", 4),
+      ("simple_annotations.data_size", 4), ("simple_annotations.rva", 4), ("annotation_objects.data_size", 4),
+      ("annotation_objects.rva", 4)] ∧
+    MINIDUMP_SIMPLE_STRING_DICTIONARY_ENTRY = [("key", 4), ("value", 4)] ∧
+    MINIDUMP_ANNOTATION = [("name", 4), ("ty", 2), ("_reserved", 2), ("value", 4)] ∧
+    ANNOTATION_TYPE_INVALID = 0 ∧ ANNOTATION_TYPE_STRING = 1 ∧ ANNOTATION_TYPE_USER_DEFINED = 0x8000 := by decide
+
 theorem constants_as_documented :
     MINIDUMP_SIGNATURE = 0x504d444d ∧ MINIDUMP_VERSION = 0xa793 ∧ CV_SIGNATURE_PDB70 = 0x53445352 ∧
     CV_SIGNATURE_PDB20 = 0x3031424e ∧ CV_SIGNATURE_ELF = 0x4270454c ∧ OBJECT_INFO_TYPE_COUNT = 10 := by decide
